@@ -64,6 +64,27 @@ func genSourceMaps(t *rapid.T, g *m.Graph) *m.SourceMaps {
 		}
 		s.Entries[i] = es
 	}
+	// node-level entries kept in another node's source map: the index is keyed by the element, so the node is
+	// located all the same, and its file is the one it is listed under, not the one of the node holding the entry
+	var hosts []int
+	for i := range g.Nodes {
+		if len(s.Entries[i]) > 0 {
+			hosts = append(hosts, i)
+		}
+	}
+	for j := range g.Nodes {
+		if _, has := s.NodeRange(j); has || len(hosts) == 0 || (len(hosts) == 1 && hosts[0] == j) {
+			continue
+		}
+		if rapid.IntRange(0, 2).Draw(t, "hosted") != 0 {
+			continue
+		}
+		h := hosts[rapid.IntRange(0, len(hosts)-1).Draw(t, "host")]
+		if h == j {
+			continue
+		}
+		s.Entries[h] = append(s.Entries[h], m.LexEntry{For: j + 1, Range: genRange(t)})
+	}
 	nf := rapid.IntRange(0, 3).Draw(t, "files")
 	assigned := map[int]bool{}
 	for f := 0; f < nf; f++ {
@@ -156,6 +177,13 @@ func checkLocations(c *c14Case, ids map[string]int, obj map[string]any, where st
 			stats["located"]++
 			if c.Maps.URI(idx) != c.Maps.Root {
 				stats["located-in-additional-file"]++
+			}
+			own := false
+			for _, e := range c.Maps.Entries[idx] {
+				own = own || e.NodeLevel
+			}
+			if !own {
+				stats["located-by-entry-in-another-source-map"]++
 			}
 		} else {
 			stats["unlocated"]++
@@ -284,6 +312,9 @@ func decideC14(c c14Case) ev.Verdict {
 	}
 	if stats["unlocated"] > 0 {
 		v.Labels = append(v.Labels, "has-unlocated-result")
+	}
+	if stats["located-by-entry-in-another-source-map"] > 0 {
+		v.Labels = append(v.Labels, "located-by-entry-in-another-source-map")
 	}
 	if stats["located-in-additional-file"] > 0 {
 		v.Labels = append(v.Labels, "located-in-additional-file")
